@@ -30,6 +30,7 @@ import hashlib
 import itertools
 import math
 import os
+import re
 from fractions import Fraction
 
 from vf.rec import Rec
@@ -375,19 +376,32 @@ def gen_cases_for(adv, n, r):
     return out, False
 
 
-def check_entry_case(rec, cat, name, n, r, tid, perm, cache, via_db=False):
+def check_entry_case(rec, cat, name, n, r, tid, perm, cache, via_db=False, hist=None):
     """Runs one catalogue entry once and evaluates every clause of the statement on the result.
-    Returns the flat output (or None)."""
+    Returns the flat output (or None).
+
+    hist (part hist): the request is one step of a history of requests made in one process.  dict(case=JSON case
+    of the whole history, key=case key, producer=callable (n, r) -> array that performs the request (direct
+    generator or Database.generate_draws), where=text describing what was requested before).  The clauses are
+    the same; findings are keyed 'C11|history|<clause>|type=<entry>'."""
     gen, adv = cat[name]
-    case = dict(part='gen', type=name, N=n, R=r, tape=tid, perm=list(perm))
-    key = (name, n, r, tid, repr(perm))
+    ckey = (name, n, r, tid, repr(perm))
+    if hist is None:
+        case = dict(part='gen', type=name, N=n, R=r, tape=tid, perm=list(perm))
+        key = ckey
+        pre, where = 'C11|', ''
+        oc = name
+    else:
+        case, key, gen = hist['case'], hist['key'], hist['producer']
+        pre, where = 'C11|history|', ' ' + hist['where']
+        oc = ('hist', name)
     out, tape, err = call_gen(gen, n, r, tid, perm)
     nt = key if n * r >= 2 else None
     if err is not None:
-        rec.case(nt, (key, 'raised', type(err).__name__), outcome=(name, 'raised'))
-        rec.violation(f'C11|generator-raises-{type(err).__name__}|type={name}',
-                      f'{name} ({adv["desc"]!r}) raised {type(err).__name__}: {err} for sample size {n}, {r} draws',
-                      case, expected='an array of shape (N, R)', observed=repr(err))
+        rec.case(nt, (key, 'raised', type(err).__name__), outcome=(oc, 'raised'))
+        rec.violation(f'{pre}generator-raises-{type(err).__name__}|type={name}',
+                      f'{name} ({adv["desc"]!r}) raised {type(err).__name__}: {err} for sample size {n}, {r} draws'
+                      + where, case, expected='an array of shape (N, R)', observed=repr(err))
         return None
     import numpy as np
     shape = tuple(getattr(out, 'shape', ()))
@@ -396,21 +410,21 @@ def check_entry_case(rec, cat, name, n, r, tid, perm, cache, via_db=False):
     def bad(clause, what, expected=None, observed=None, k=None):
         nonlocal ok_all
         ok_all = False
-        rec.violation(k or f'C11|{clause}|type={name}', f'{name} ({adv["desc"]!r}) N={n} R={r} tape={tid} '
-                      f'shuffle={perm}: {what}', case, expected=expected, observed=observed)
+        rec.violation(k or f'{pre}{clause}|type={name}', f'{name} ({adv["desc"]!r}) N={n} R={r} tape={tid} '
+                      f'shuffle={perm}{where}: {what}', case, expected=expected, observed=observed)
 
     if not isinstance(out, np.ndarray) or shape != (n, r):
-        rec.case(nt, (key, 'shape', shape), outcome=(name, 'shape'))
+        rec.case(nt, (key, 'shape', shape), outcome=(oc, 'shape'))
         bad('shape', f'returned shape {shape} instead of ({n}, {r})', expected=[n, r], observed=list(shape))
         return None
     vals = flat(out)
-    cache[key] = vals
+    cache[ckey] = vals
     if tape.size_mismatch:
         rec.count('shuffle_size_unexpected')
     # ---- support
     if not all(math.isfinite(v) for v in vals):
         bad('support', 'non-finite entries', observed=[v for v in vals if not math.isfinite(v)][:3])
-        rec.case(nt, (key, digest(out)), outcome=(name, 'nonfinite'))
+        rec.case(nt, (key, digest(out)), outcome=(oc, 'nonfinite'))
         return vals
     if adv['support'] is not None:
         lo, hi = adv['support']
@@ -530,7 +544,7 @@ def check_entry_case(rec, cat, name, n, r, tid, perm, cache, via_db=False):
                 lib = flat(lib_quantile(u_ref))
                 if all_close(lib, gen_part, 1e-12):
                     ok_all = False
-                    report_quantile(rec, errs, case, f'{name} N={n} R={r} tape={tid}')
+                    report_quantile(rec, errs, case, f'{name} N={n} R={r} tape={tid}' + where)
                 else:
                     bad('normal-variant-not-quantile-of-advertised-uniforms',
                         'the draws are neither the standard-normal quantiles of the advertised underlying uniform '
@@ -567,7 +581,7 @@ def check_entry_case(rec, cat, name, n, r, tid, perm, cache, via_db=False):
             bad('db-path', 'Database.generate_draws differs from the catalogue generator under the same RNG answers',
                 expected=vals[:5], observed=flat(t)[:5])
         rec.count('db_path_calls')
-    rec.case(nt, (key, digest(out)), outcome=(name, ok_all))
+    rec.case(nt, (key, digest(out)), outcome=(oc, ok_all))
     return vals
 
 
@@ -802,6 +816,195 @@ def _part_shape(task, rec):
                               observed=list(res))
 
 
+# --------------------------------------------------------------------------- part hist (histories of requests)
+# The statement holds "for each catalogued draw type and any requested size": whatever was requested before in the
+# same process, and whatever the caller did with the arrays it received.  A history is a sequence of steps
+#   dict(type=<entry>, N=, R=, via='gen' | 'db', mut='none' | 'zero' | 'flat')
+# 'gen' calls the catalogue generator, 'db' asks one Database object (one per sample size, kept for the whole history)
+# through generate_draws; after the answer has been checked against every clause of the statement, the caller
+# post-processes *its* array in place: 'zero' multiplies it by 0, 'flat' reshapes it in place to one dimension (what
+# draws.get_normal_wichura_draws does to the uniform numbers it is given).  The RNG answers of step i are fixed by the
+# position: tape HTAPES[i], shuffle answer HPERMS[i].
+HTAPES = ['weyl', 'ramp', 'weyl2', 'ramprev']
+HPERMS = [('rot', 1), ('rev',), ('id',), ('swap', 0)]
+MUTS = ['none', 'zero', 'flat']
+
+
+def hist_text(steps, pos):
+    def one(st):
+        return (f"{st['type']}({st['N']},{st['R']})" + ('@Database.generate_draws' if st['via'] == 'db' else '')
+                + ('' if st['mut'] == 'none' else f"+caller:{st['mut']}"))
+    if pos == 0:
+        return '[first request of a history]'
+    return '[requested after ' + ', '.join(one(st) for st in steps[:pos]) + ' in the same process]'
+
+
+def run_history(rec, cat, steps, only_pos=None):
+    """Executes the steps in order on the real code and checks every answer.  Returns nothing."""
+    import numpy as np
+    import pandas as pd
+    import biogeme.database as db
+    dbs = {}
+    hid = tuple((st['type'], st['N'], st['R'], st['via'], st['mut']) for st in steps)
+    for pos, st in enumerate(steps):
+        name, n, r = st['type'], st['N'], st['R']
+        tid, perm = HTAPES[pos % len(HTAPES)], HPERMS[pos % len(HPERMS)]
+        holder = {}
+        if st['via'] == 'db':
+            if n not in dbs:
+                dbs[n] = db.Database(f'c11h{n}', pd.DataFrame({'x': [float(i + 1) for i in range(n)]}))
+            d = dbs[n]
+
+            def producer(n_, r_, d=d, name=name, pos=pos, holder=holder):
+                t = d.generate_draws({f'v{pos}': name}, [f'v{pos}'], r_)
+                holder['raw'] = t
+                if getattr(t, 'ndim', 0) != 3 or t.shape[2] != 1:
+                    return t
+                return t[:, :, 0]
+        else:
+            def producer(n_, r_, g=cat[name][0], holder=holder):
+                out = g(n_, r_)
+                holder['raw'] = out
+                return out
+        hist = dict(case=dict(part='hist', steps=steps, pos=pos), key=('hist', hid[:pos + 1]),
+                    producer=producer, where=hist_text(steps, pos))
+        if only_pos is not None and pos > only_pos:
+            break
+        check_entry_case(rec, cat, name, n, r, tid, perm, {}, via_db=False, hist=hist)
+        raw = holder.get('raw')
+        if isinstance(raw, np.ndarray) and st['mut'] != 'none':
+            try:
+                if st['mut'] == 'zero':
+                    raw *= 0.0
+                elif st['mut'] == 'flat':
+                    raw.shape = (raw.size,)
+            except (AttributeError, ValueError):
+                rec.count('hist_mutation_not_applicable')
+
+
+def _hist_sizes(tier):
+    return [(2, 2), (3, 4), (2, 6)] if tier == 'quick' else [(1, 2), (2, 2), (3, 4), (2, 6), (4, 3)]
+
+
+def _part_hist(task, rec):
+    cat = catalogue()
+    names = list(cat)
+    sh_i, sh_k = task['shard']
+    kind = task['kind']
+    S = [tuple(s) for s in task['sizes']]
+
+    def ok_size(name, s):
+        return not (cat[name][1]['anti'] and s[1] % 2)
+
+    if kind == 'h2':
+        # every ordered pair of entries x every ordered pair of sizes x (via, via) x what the caller does in between
+        for a in names[sh_i::sh_k]:
+            for b in names:
+                for sa in S:
+                    for sb in S:
+                        if not (ok_size(a, sa) and ok_size(b, sb)):
+                            rec.count('skipped_out_of_domain_odd_R_antithetic')
+                            continue
+                        for va, vb in task['vias']:
+                            for mut in task['muts']:
+                                steps = [dict(type=a, N=sa[0], R=sa[1], via=va, mut=mut),
+                                         dict(type=b, N=sb[0], R=sb[1], via=vb, mut='none')]
+                                run_history(rec, cat, steps)
+                                rec.count('histories')
+    elif kind == 'h3':
+        # every ordered triple of entries; sizes s, s', s (s' = s and s' != s); the caller's action after every step
+        for a in names[sh_i::sh_k]:
+            for b in names:
+                for c in names:
+                    for sa, sb in task['size_patterns']:
+                        sa, sb = tuple(sa), tuple(sb)
+                        if not (ok_size(a, sa) and ok_size(b, sb) and ok_size(c, sa)):
+                            rec.count('skipped_out_of_domain_odd_R_antithetic')
+                            continue
+                        for via in task['vias']:
+                            for mut in task['muts']:
+                                steps = [dict(type=a, N=sa[0], R=sa[1], via=via[0], mut=mut),
+                                         dict(type=b, N=sb[0], R=sb[1], via=via[1], mut=mut),
+                                         dict(type=c, N=sa[0], R=sa[1], via=via[2], mut='none')]
+                                run_history(rec, cat, steps)
+                                rec.count('histories')
+    elif kind == 'rep':
+        # the same request repeated k times (k = task['k']) with the caller's action after every answer
+        for a in names[sh_i::sh_k]:
+            for s in S:
+                if not ok_size(a, s):
+                    rec.count('skipped_out_of_domain_odd_R_antithetic')
+                    continue
+                for via in ('gen', 'db'):
+                    for mut in task['muts']:
+                        steps = [dict(type=a, N=s[0], R=s[1], via=via, mut=mut) for _ in range(task['k'])]
+                        run_history(rec, cat, steps)
+                        rec.count('histories')
+    elif kind == 'multi':
+        _hist_multi(task, rec, cat, names[sh_i::sh_k], names, S)
+    else:
+        raise KeyError(kind)
+
+
+def _hist_multi(task, rec, cat, firsts, names, S):
+    """Two variables in ONE Database.generate_draws call: slice j of the table must be what entry j delivers when it
+    is asked alone under the same RNG answers (the tape simply continues from the first generator to the second)."""
+    import pandas as pd
+    import biogeme.database as db
+    for a in firsts:
+        for b in names:
+            for (n, r) in S:
+                if (cat[a][1]['anti'] or cat[b][1]['anti']) and r % 2:
+                    rec.count('skipped_out_of_domain_odd_R_antithetic')
+                    continue
+                tid, perm = HTAPES[0], HPERMS[1]
+                case = dict(part='hist', multi=True, pair=[a, b], N=n, R=r)
+                key = ('multi', a, b, n, r)
+                d = db.Database('c11m', pd.DataFrame({'x': [float(i + 1) for i in range(n)]}))
+                tape = Tape(tid, perm)
+                with owned(tape):
+                    try:
+                        t, e = d.generate_draws({'a': a, 'b': b}, ['a', 'b'], r), None
+                    except UnownedRandomness:
+                        raise
+                    except Exception as ex:  # noqa: BLE001
+                        t, e = None, ex
+                tape2 = Tape(tid, perm)
+                with owned(tape2):
+                    try:
+                        oa = cat[a][0](n, r)
+                        ob = cat[b][0](n, r)
+                        e2 = None
+                    except UnownedRandomness:
+                        raise
+                    except Exception as ex:  # noqa: BLE001
+                        e2 = ex
+                singles = e2 is None and getattr(oa, 'shape', None) == (n, r) and getattr(ob, 'shape', None) == (n, r)
+                culprit = None
+                if e is not None:
+                    good, obs = False, f'raised {type(e).__name__}: {e}'
+                    m = re.search(r'generator for (a|b) must', str(e))
+                    culprit = {'a': a, 'b': b}[m.group(1)] if m else None
+                elif tuple(getattr(t, 'shape', ())) != (n, r, 2):
+                    good, obs = False, f'table of shape {tuple(getattr(t, "shape", ()))} instead of ({n}, {r}, 2)'
+                elif not singles:
+                    rec.count('hist_multi_single_requests_failed')   # reported by the history / gen parts
+                    rec.case(key, (key, 'single-failed'), outcome=('multi', 'single-failed'))
+                    continue
+                else:
+                    ga = all_close(flat(t[:, :, 0]), flat(oa), 0.0)
+                    gb = all_close(flat(t[:, :, 1]), flat(ob), 0.0)
+                    good = ga and gb
+                    culprit = a if not ga else b
+                    obs = '' if good else ('slice of variable ' + ('a' if not ga else 'b') + ' differs from the entry '
+                                           'asked alone under the same RNG answers')
+                rec.case(key, (key, digest(t) if e is None else 'raised'), outcome=('multi', good))
+                if not good:
+                    rec.violation(f'C11|history|db-path-two-variables|type={culprit or (a + "+" + b)}',
+                                  f'Database.generate_draws({{a: {a}, b: {b}}}, [a, b], {r}) on {n} rows: {obs}', case,
+                                  expected='the (N, R, 2) table of the two entries', observed=obs)
+
+
 # --------------------------------------------------------------------------- part q
 def _ulps(x, k):
     for _ in range(abs(k)):
@@ -930,6 +1133,29 @@ def sizes(tier):
     return out
 
 
+HIST_SHARDS = 21
+
+
+def hist_tasks(tier):
+    t = []
+    hs = [list(x) for x in _hist_sizes(tier)]
+    k = HIST_SHARDS
+    vias2 = [['gen', 'gen'], ['db', 'db'], ['gen', 'db'], ['db', 'gen']]
+    for i in range(k):
+        t.append(dict(part='hist', kind='rep', shard=[i, k], sizes=hs, muts=MUTS, k=3 if tier == 'quick' else 4))
+    for i in range(k):
+        t.append(dict(part='hist', kind='multi', shard=[i, k], sizes=hs))
+    for i in range(k):
+        t.append(dict(part='hist', kind='h2', shard=[i, k], sizes=hs, vias=vias2, muts=MUTS))
+    if tier != 'quick':
+        k3 = 4 * HIST_SHARDS
+        for i in range(k3):
+            t.append(dict(part='hist', kind='h3', shard=[i, k3], sizes=hs,
+                          size_patterns=[[[2, 2], [2, 2]], [[2, 2], [3, 4]]],
+                          vias=[['gen', 'gen', 'gen'], ['db', 'db', 'db']], muts=['none', 'flat']))
+    return t
+
+
 def tasks(tier, seed):
     t = []
     sz = sizes(tier)
@@ -948,6 +1174,7 @@ def tasks(tier, seed):
     for i in range(0, len(small), 4):
         t.append(dict(part='lhs', sizes=small[i:i + 4]))
     t.append(dict(part='shape', sizes=[[1, 1], [1, 2], [2, 2], [3, 2], [2, 3], [5, 4]]))
+    t += hist_tasks(tier)
     nsp = len(special_points())
     chunk = 1500
     for lo in range(0, nsp, chunk):
@@ -972,6 +1199,8 @@ def run_task(task):
         _part_lhs(task, rec)
     elif part == 'shape':
         _part_shape(task, rec)
+    elif part == 'hist':
+        _part_hist(task, rec)
     elif part == 'q':
         _part_q(task, rec)
     else:
@@ -1001,6 +1230,13 @@ def replay(case):
         _part_lhs(dict(sizes=[[case['N'], case['R']]]), rec, only=case)
     elif part == 'shape':
         _part_shape(case, rec)
+    elif part == 'hist':
+        cat = catalogue()
+        if case.get('multi'):
+            _hist_multi({}, rec, cat, [case['pair'][0]], [case['pair'][1]], [(case['N'], case['R'])])
+        else:
+            run_history(rec, cat, case['steps'], only_pos=case['pos'])
+            rec.violations = [v for v in rec.violations if v['case'].get('pos') == case['pos']]
     elif part == 'q':
         if 'witness_u' in case:
             u = float.fromhex(case['witness_u'])
